@@ -340,4 +340,30 @@ func init() {
 		})
 		return line, res, kind
 	}})
+
+	// move: the Emacs movement commands with a numeric argument (C06)
+	moveCmds := []string{"forward-char", "backward-char", "forward-word", "backward-word", "beginning-of-line", "end-of-line"}
+	register(&model{name: "move", gen: func(rng *rand.Rand) (string, string, string) {
+		l := randRunes(rng, killAlpha, 10)
+		cp := rng.Intn(len(l) + 1)
+		cmd := moveCmds[rng.Intn(len(moveCmds))]
+		n := 1
+		if rng.Intn(3) == 0 {
+			n = 1 + rng.Intn(5)
+		}
+		line := fmt.Sprintf("move %s %d %s %d", cmd, n, natsR(l), cp)
+		res := guard(func() string {
+			rl := readline.NewShell()
+			rl.Line().Set(append([]rune{}, l...)...)
+			rl.Cursor().Set(cp)
+			if n != 1 {
+				rl.Iterations.Add(fmt.Sprint(n))
+			}
+			core.MatchedKeys(rl.Keys, []byte{6})
+			rl.Keymap.Commands()[cmd]()
+			rl.Cursor().CheckAppend()
+			return fmt.Sprintf("ok %s %d", natsR([]rune(string(*rl.Line()))), rl.Cursor().Pos())
+		})
+		return line, res, cmd
+	}})
 }
